@@ -30,7 +30,6 @@ import copy
 import itertools
 import math
 import os
-import random
 import re
 import shutil
 import tempfile
@@ -82,7 +81,7 @@ K_LABEL = 'label-special-char-truncated'
 
 
 def budget(tier):
-    return 45 if tier == 'quick' else 420
+    return 35 if tier == "quick" else 420
 
 
 def shards(tier):
